@@ -255,7 +255,11 @@ class _Marshaller:
 
     def dump_unicode(self, x):
         self._write(TYPE_UNICODE)
-        if not PYTHON3 and self.python_version < (3, 0):
+        if PYTHON3:
+            # The payload is UTF-8 and the length counts its bytes, not code points;
+            # marshal itself uses surrogatepass.
+            s = x.encode("utf-8", "surrogatepass")
+        elif self.python_version < (3, 0):
             s = x.encode("utf8")
         else:
             s = x
